@@ -1,0 +1,28 @@
+//go:build verif
+
+package godi
+
+import "sync/atomic"
+
+// Instrumentation for the runtime monitors kept outside this repository (build tag "verif"
+// only; without the tag verifYield is an empty function and SetVerifHook does not exist).
+// verifYield is called between critical sections - never while a lock of this package is
+// held - so that a monitor can widen or steer the interleaving of concurrent operations.
+
+var verifHook atomic.Pointer[func(point string)]
+
+// SetVerifHook installs fn as the function called at every instrumentation point
+// (nil removes it).
+func SetVerifHook(fn func(point string)) {
+	if fn == nil {
+		verifHook.Store(nil)
+		return
+	}
+	verifHook.Store(&fn)
+}
+
+func verifYield(point string) {
+	if h := verifHook.Load(); h != nil {
+		(*h)(point)
+	}
+}
